@@ -196,6 +196,8 @@ class Ctx:
             first = code.co_firstlineno
             total = {l for _, _, l in code.co_lines() if l is not None and l != first}
             self.add_lines(label, total, cov.hit[label] & total)
+        for label in getattr(cov, 'missing', []):
+            self.note(f'anchored function {label} does not exist in this tree (renamed or removed): its line coverage is not reported')
 
 
 def merge_extra(extra, k, v):
